@@ -1,12 +1,16 @@
 (* Property C13 - lexical path functions equal path/filepath of the emulated OS.
    Statements only.  What is proved for ALL strings: the Split laws (both OS
-   types), IsAbs/FromSlash/ToSlash/VolumeName/Abs for the POSIX flavour, and the
-   PathIterator cursor laws.  Clean and Join are proved equal to the
-   component-level specification (Pike's rules) on every string up to the stated
-   bound - a finite statement, labelled as such; beyond the bound, and for Rel,
-   Match, Dir, Base and the Windows flavour, the claim rests on the differential
-   run against the code and against the host's path/filepath. *)
-From Avfs Require Import Base PathModel PathSpec PathBridge PathProofs.
+   types), IsAbs/FromSlash/ToSlash/VolumeName/Abs for the POSIX flavour, the
+   PathIterator cursor laws, and - POSIX flavour, second half of this file -
+   Clean = the component-level specification (Pike's rules) with its
+   corollaries (idempotence, shape of a cleaned absolute path), Join and Abs =
+   their specifications, and the PathIterator on components (Next, the
+   accessors, the sequence of parts, ReplacePart).  The two bounded statements
+   (C13_clean_spec_bounded8, C13_join_spec_bounded4) are kept: they are now
+   instances of the unbounded ones.  For Rel, Match, Dir, Base and the Windows
+   flavour the claim rests on the differential run against the code and against
+   the host's path/filepath. *)
+From Avfs Require Import Base PathModel PathSpec PathBridge PathProofs PathCleanProofs PathIterProofs.
 
 Theorem C13_split_app : forall os p, fst (split os p) ++ snd (split os p) = p.
 Proof. exact split_app. Qed.
@@ -59,3 +63,149 @@ Example C13_example_clean :
   clean Linux [47;97;47;46;46;47;46;46;47;98;47;46;47]%N = [47;98]%N        (* "/a/../../b/./" -> "/b" *)
   /\ clean Windows [67;58;47;97;47;46;46;92;98]%N = [67;58;92;98]%N.          (* "C:/a/..\b" -> "C:\b" *)
 Proof. vm_compute. auto. Qed.
+
+(* ======================================================================== *)
+(* POSIX flavour, ALL byte strings (no bound): Clean / Join / Abs equal the   *)
+(* component-level specification of PathSpec.v                               *)
+(* ======================================================================== *)
+
+(* the loop of Clean (fuel, lazy buffer, dotdot index) computes Pike's rules *)
+Theorem C13_clean_spec : forall p, clean Linux p = clean_spec p.
+Proof. exact clean_spec_correct. Qed.
+
+Theorem C13_clean_idempotent : forall p, clean Linux (clean Linux p) = clean Linux p.
+Proof. exact clean_idempotent. Qed.
+
+(* a cleaned absolute path is "/" followed by proper names joined by "/":
+   every name non-empty, separator-free, neither "." nor ".." *)
+Theorem C13_clean_rooted : forall p,
+  is_abs Linux p = true ->
+  exists cs, clean Linux p = SLASH :: intercalate [SLASH] cs /\ Forall good_comp cs.
+Proof. exact clean_rooted. Qed.
+
+Theorem C13_clean_no_dotdot_rooted : forall p c,
+  is_abs Linux p = true -> In c (comps (clean Linux p)) -> c <> [DOT; DOT] /\ c <> [DOT].
+Proof. exact clean_no_dotdot_rooted. Qed.
+
+Theorem C13_join_spec : forall elems, join Linux elems = join_spec elems.
+Proof. exact join_spec_correct. Qed.
+
+(* Join on components: the non-empty components of all elements, normalised;
+   rooted iff the first non-empty element is *)
+Theorem C13_join_comps : forall (elems : list str) (x : str) (l : list str),
+  filter ne elems = x :: l ->
+  join Linux elems = render (is_abs_spec x) (norm (is_abs_spec x) [] (fc elems)).
+Proof. exact join_comps. Qed.
+
+Theorem C13_abs_spec : forall cur p, abs Linux cur p = abs_spec cur p.
+Proof. exact abs_spec_correct. Qed.
+
+(* ======================================================================== *)
+(* PathIterator on a clean absolute path  abs_path cs = "/c1/.../cn"          *)
+(* (every ci non-empty and separator-free; "/" for cs = []), all cs           *)
+(* ======================================================================== *)
+
+(* one Next from a cursor that has consumed the components [done] *)
+Theorem C13_pi_next_step : forall (cs done todo : list str) (pi : piter),
+  Forall comp_ok cs -> cs = done ++ todo -> before cs done pi ->
+  pi_next Linux pi = match todo with
+                     | [] => (false, past_end cs done)
+                     | c :: _ => (true, on_comp cs done c)
+                     end.
+Proof. exact pi_next_step. Qed.
+
+Theorem C13_pi_new_before : forall cs, before cs [] (pi_new Linux (abs_path cs)).
+Proof. exact pi_new_before. Qed.
+
+Theorem C13_pi_on_comp_before : forall cs done c, before cs (done ++ [c]) (on_comp cs done c).
+Proof. exact on_comp_before. Qed.
+
+(* Part, Left, Right, LeftPart, RightPart, IsLast on the k-th component *)
+Theorem C13_pi_views : forall (done todo : list str) (c : str),
+  let pi := on_comp (done ++ c :: todo) done c in
+  pi_part pi = c /\ pi_left pi = rpath done ++ [SLASH] /\ pi_right pi = rpath todo
+  /\ pi_left_part pi = rpath (done ++ [c]) /\ pi_right_part pi = c ++ rpath todo
+  /\ pi_is_last pi = match todo with [] => true | _ => false end.
+Proof. exact on_comp_views. Qed.
+
+(* iterating Next from NewPathIterator yields exactly the components, in order *)
+Theorem C13_pi_parts : forall cs, Forall comp_ok cs -> pi_parts Linux (abs_path cs) = cs.
+Proof. exact pi_parts_spec. Qed.
+
+(* ReplacePart (symbolic link substitution) on components *)
+Theorem C13_pi_replace_part : forall (done todo : list str) (c link : str),
+  Forall comp_ok (done ++ c :: todo) ->
+  let cs := done ++ c :: todo in
+  let cs' := new_comps done todo link in
+  Forall good_comp cs' /\
+  exists (reset : bool) (pi' : piter),
+    pi_replace_part Linux (on_comp cs done c) link = (reset, pi') /\
+    ((reset = true /\ before cs' [] pi' /\ ~ resumes done cs')
+     \/ (reset = false /\ before cs' done pi' /\ resumes done cs')).
+Proof. exact pi_replace_part_spec. Qed.
+
+(* ... and the parts still to come afterwards *)
+Theorem C13_pi_replace_part_parts : forall (done todo : list str) (c link : str),
+  Forall comp_ok (done ++ c :: todo) ->
+  let cs' := new_comps done todo link in
+  exists (reset : bool) (pi' : piter),
+    pi_replace_part Linux (on_comp (done ++ c :: todo) done c) link = (reset, pi') /\
+    pi_path pi' = abs_path cs' /\
+    forall fuel, length cs' < fuel ->
+      pi_parts_f Linux fuel pi' = if reset then cs' else skipn (length done) cs'.
+Proof. exact pi_replace_part_parts. Qed.
+
+Theorem C13_new_comps_rel_stack : forall (done todo : list str) (link : str),
+  Forall good_comp done -> is_abs Linux link = false ->
+  new_comps done todo link = norm true (rev done) (comps link ++ todo).
+Proof. exact new_comps_rel_stack. Qed.
+
+Theorem C13_new_comps_rel_simple : forall (done todo lc : list str),
+  Forall good_comp done -> Forall good_comp lc -> Forall good_comp todo -> lc <> [] ->
+  is_abs Linux (intercalate [SLASH] lc) = false /\
+  new_comps done todo (intercalate [SLASH] lc) = done ++ lc ++ todo.
+Proof. exact new_comps_rel_simple. Qed.
+
+Theorem C13_new_comps_abs_simple : forall (done todo lc : list str),
+  Forall good_comp lc -> Forall good_comp todo ->
+  is_abs Linux (abs_path lc) = true /\ new_comps done todo (abs_path lc) = lc ++ todo.
+Proof. exact new_comps_abs_simple. Qed.
+
+(* ---- paths as component lists: abs_path / path_comps ------------------------ *)
+Theorem C13_path_comps_abs_path : forall cs, Forall comp_ok cs -> path_comps (abs_path cs) = cs.
+Proof. exact path_comps_abs_path. Qed.
+
+Theorem C13_abs_path_inj : forall cs cs',
+  Forall comp_ok cs -> Forall comp_ok cs' -> abs_path cs = abs_path cs' -> cs = cs'.
+Proof. exact abs_path_inj. Qed.
+
+(* Clean of any absolute path, on components *)
+Theorem C13_clean_abs_comps : forall p,
+  is_abs Linux p = true ->
+  clean Linux p = abs_path (norm true [] (path_comps p)) /\ Forall good_comp (norm true [] (path_comps p)).
+Proof. exact clean_abs_comps. Qed.
+
+Theorem C13_clean_abs_path_fix : forall cs, Forall good_comp cs -> clean Linux (abs_path cs) = abs_path cs.
+Proof. exact clean_abs_path_fix. Qed.
+
+(* Join of a clean absolute base with any path / with a clean absolute path *)
+Theorem C13_join_abs_any : forall (bs : list str) (p : str),
+  Forall good_comp bs ->
+  join Linux [abs_path bs; p] = abs_path (norm true (rev bs) (path_comps p)).
+Proof. exact join_abs_any. Qed.
+
+Theorem C13_join_abs_abs : forall bs ps,
+  Forall good_comp bs -> Forall good_comp ps ->
+  join Linux [abs_path bs; abs_path ps] = abs_path (bs ++ ps).
+Proof. exact join_abs_abs. Qed.
+
+(* non-vacuity: "/a/b/c", cursor on "b"; link "../x" gives "/x/c" and a reset,
+   link "y/z" gives "/a/y/z/c" and resumes after "/a" *)
+Example C13_example_iter :
+  let a := [97%N] in let b := [98%N] in let c := [99%N] in
+  Forall comp_ok ([a] ++ b :: [c])
+  /\ new_comps [a] [c] [DOT; DOT; SLASH; 120%N] = [[120%N]; c]
+  /\ fst (pi_replace_part Linux (on_comp ([a] ++ b :: [c]) [a] b) [DOT; DOT; SLASH; 120%N]) = true
+  /\ new_comps [a] [c] [121%N; SLASH; 122%N] = [a; [121%N]; [122%N]; c]
+  /\ fst (pi_replace_part Linux (on_comp ([a] ++ b :: [c]) [a] b) [121%N; SLASH; 122%N]) = false.
+Proof. exact pi_replace_part_example. Qed.
